@@ -261,9 +261,15 @@ func framingRules(p *Prog, r *Report, R string) {
 		} else {
 			// net.Buffers{prefix, Header, Body}
 			var seg []string
-			for i := 0; i < 4; i++ {
-				for _, e := range f.Ev("store", fmt.Sprintf("$varargs[%d]", i)) {
-					seg = append(seg, e.Args[0])
+			// (built by append(net.Buffers{}, a, b, c) or by the literal net.Buffers{a, b, c})
+			for _, tmp := range []string{"$varargs", "$slicelit"} {
+				if len(seg) > 0 {
+					break
+				}
+				for i := 0; i < 4; i++ {
+					for _, e := range f.Ev("store", fmt.Sprintf("%s[%d]", tmp, i)) {
+						seg = append(seg, e.Args[0])
+					}
 				}
 			}
 			okOrder := len(seg) == 3 && strings.HasPrefix(prefix, seg[0][:len(seg[0])-0][:minInt(len(seg[0]), len(prefix))][:0]+seg[0][:0]) && seg[1] == "arg1.Header" && seg[2] == "arg1.Body"
